@@ -662,7 +662,7 @@ def _invoke(fn, args, kw, limit, findings, where, type_only):
             # running out of stack and running out of step budget are the same outcome: the call did not finish
             # (the worlds differ in stack depth per call level because of the monitor's wrapper frames)
             return ('div',)
-        if worlds.link_witness(e):
+        if worlds.link_witness(e) or worlds.object_attr_witness(e, args, kw):
             site = worlds.innermost_package_frame(e)
             if site is not None:
                 findings.append({'oracle': 'D', 'key': _link_key(site, e), 'alt_keys': [_link_key(s_, e) for s_ in _package_frames(e)],
@@ -693,6 +693,8 @@ def _link_key(site, e):
     elif isinstance(e, AttributeError):
         m = re.search(r"module '([^']+)' has no attribute '([^']+)'", msg)
         what = '%s.%s' % m.groups() if m else ''
+        if not m and getattr(e, 'name', None) is not None:
+            what = '<%s>.%s' % (type(getattr(e, 'obj', None)).__name__, e.name)
     else:
         m = re.match(r"\s*([\w\.<>]+)\(\)", msg)
         what = m.group(1) if m else ''
